@@ -270,7 +270,7 @@ def gen_cases(rng, tier, n):
             out.append(gen_E(rng))
         else:
             out.append(gen_D(rng))
-    return out
+    return [add_faults(rng, c) for c in out]
 
 
 # ---- families of the extra phase (known-finding space)
@@ -402,7 +402,34 @@ WITNESSES = [
 
 
 def fixup(case):
+    """a `fail` op only means something right before an ingesting op"""
+    ops = case["ops"]
+    keep = [o for i, o in enumerate(ops)
+            if o["op"] != "fail" or (i + 1 < len(ops) and ops[i + 1]["op"] in INGEST)]
+    if len(keep) != len(ops):
+        case = dict(case)
+        case["ops"] = keep
     return case
+
+
+def add_faults(rng, c, p=0.25):
+    """storage faults: the engine refuses to commit the next ingress transaction of a node"""
+    if rng.random() > p:
+        return c
+    ops = []
+    for o in c["ops"]:
+        if o["op"] in INGEST and rng.random() < 0.25:
+            tgt = o["n"] if o["op"] != "round" else rng.choice([o["i"], o["j"]])
+            if rng.random() < 0.08:
+                tgt = rng.choice(c["nodes"] + [8])
+            ops.append({"op": "fail", "n": tgt})
+            ops.append(o)
+            if rng.random() < 0.6:
+                ops.append(json.loads(json.dumps(o)))      # at-least-once: the same delivery again
+        else:
+            ops.append(o)
+    c["ops"] = ops
+    return c
 
 
 # --------------------------------------------------------------------------- Coq terms
@@ -464,8 +491,38 @@ def eff_T(case):
     return max(1, int(case.get("T", 1)))
 
 
+INGEST = ("inject", "deliver", "round")
+
+
+def c_gstep(o):
+    t = o["op"]
+    if t == "inject":
+        return "GInject %s %s %s" % (cN(o["n"]), cN(o.get("sender", 0)), clist([c_op(i) for i in o["batch"]]))
+    if t == "deliver":
+        return "GDeliver %s %s" % (cnat(o["m"]), cN(o["n"]))
+    return "GRound %s %s %s" % (cN(o["i"]), cN(o["j"]), cbool(o.get("late", False)))
+
+
+def paired_steps(case, r):
+    """(Coq step, dump) per executed step: a `fail` op arms node n for the ingesting op that follows
+    it and becomes one SFaulty step with it; a `fail` followed by anything else does nothing"""
+    out = []
+    pending = None
+    ops = case["ops"]
+    for i, (o, d) in enumerate(zip(ops, r["outs"])):
+        if o["op"] == "fail":
+            pending = o["n"] if i + 1 < len(ops) and ops[i + 1]["op"] in INGEST else None
+            continue
+        if pending is not None and o["op"] in INGEST:
+            out.append(("SFaulty %s (%s)" % (cN(pending), c_gstep(o)), d))
+        else:
+            out.append((c_step(o), d))
+        pending = None
+    return out
+
+
 def to_coq(case, r):
-    steps = ["(%s, %s)" % (c_step(o), c_obs(d)) for o, d in zip(case["ops"], r["outs"])]
+    steps = ["(%s, %s)" % (st, c_obs(d)) for st, d in paired_steps(case, r)]
     return "Case %s %s %s" % (clist([cN(n) for n in case["nodes"]]), cN(eff_T(case)), clist(steps))
 
 
@@ -502,6 +559,8 @@ def histogram(case, r):
     ks = ["family=" + case.get("fam", "?"), "nodes=%d" % len(case["nodes"]), "T=%d" % eff_T(case)]
     for o in case["ops"]:
         ks.append("op=" + o["op"])
+    if r.get("fired"):
+        ks.append("ingress_commit_failures_hit=%d" % min(r["fired"], 5))
     outs = r.get("outs") or []
     if outs:
         last = outs[-1]
@@ -528,7 +587,7 @@ def neighbours(case, rng):
     c = json.loads(json.dumps(case))
     c["ops"] += sweeps(case["nodes"], eff_T(case), rng)
     out.append(c)
-    return out[:60]
+    return [fixup(x) for x in out[:60]]
 
 
 def kinds_batch(pairs):
@@ -632,7 +691,7 @@ def extra(ctx):
             for j in range(len(ops)):
                 c2 = json.loads(json.dumps(cur))
                 del c2["ops"][j]
-                cands.append(c2)
+                cands.append(fixup(c2))
             if not cands:
                 break
             r2, _, V2, hv2, _ = ctx.evaluate(cands)
